@@ -260,6 +260,14 @@ class _CallableObject:
         return self._f(x)
 
 
+class _FalsyCallable(_CallableObject):
+    """round 3b: a callable object whose truth value is False (it defines __bool__; an empty callable container
+    with __len__ is the same): still callable(), still `is not None`"""
+
+    def __bool__(self):
+        return False
+
+
 def as_callable_kind(f, kc, intvalued=False):
     """round 3: the same function as another KIND of callable - every one satisfies callable():
     'lambda' a plain function, 'partial' a functools.partial, 'object' an instance with __call__,
@@ -272,6 +280,8 @@ def as_callable_kind(f, kc, intvalued=False):
         return functools.partial(lambda g, x: g(x), f)
     if kc == 'object' or (kc == 'class' and not intvalued):
         return _CallableObject(f)
+    if kc == 'falsy':
+        return _FalsyCallable(f)
     if kc == 'method':
         return _CallableObject(f).method
     if kc == 'class':
@@ -287,7 +297,7 @@ class _IntKey(int):
         return int.__new__(cls, cls._f(x))
 
 
-CALLABLE_KINDS = ('lambda', 'partial', 'object', 'method', 'class')
+CALLABLE_KINDS = ('lambda', 'partial', 'object', 'method', 'class', 'falsy')
 
 
 def key_callable(name, kc=None):
@@ -620,7 +630,7 @@ class C09(Property):
                         i += 1
                         case = {'op': 'split', 'kind': kinds[i % 5], 'xs': list(xs), 'sep': list(sep), 'ms': ms}
                         if sep[0] == 'c':
-                            case['kc'] = CALLABLE_KINDS[i % 5]
+                            case['kc'] = CALLABLE_KINDS[i % 6]
                         if ms is not None:
                             a = (None, 'f', 'h', 'b', None, 'g', None)[i % 7]
                             if a:
@@ -731,6 +741,14 @@ class C09(Property):
                         yield {'op': 'bucketize', 'kind': kind, 'xs': xs, 'key': key, 'vt': ('id', 'sq')[0 not in xs and i % 2],
                                'kf': (None, 1)[i % 2], 'kc': kc}
                         yield {'op': 'partition', 'kind': kind, 'xs': xs, 'key': key, 'kc': kc}
+                        if i % 3 == 0:
+                            # round 3b: the same through a callable object whose truth value is False
+                            yield {'op': 'unique', 'kind': kind, 'xs': xs, 'key': key, 'kc': 'falsy'}
+                            yield {'op': 'redundant', 'kind': kind, 'xs': xs, 'key': key, 'groups': bool(i % 2),
+                                   'kc': 'falsy'}
+                            yield {'op': 'bucketize', 'kind': kind, 'xs': xs, 'key': key, 'vt': 'id',
+                                   'kf': (None, 1)[i % 2], 'kc': 'falsy'}
+                            yield {'op': 'partition', 'kind': kind, 'xs': xs, 'key': key, 'kc': 'falsy'}
                     yield dict({'op': 'unique', 'kind': kind, 'xs': xs, 'key': key}, **tw)
                     yield dict({'op': 'redundant', 'kind': kind, 'xs': xs, 'key': key, 'groups': False}, **tw)
                     yield {'op': 'redundant', 'kind': kind, 'xs': xs, 'key': key, 'groups': False, 'dflt': True}
@@ -1127,6 +1145,10 @@ class C09(Property):
         # input and a list form that differs from the *_iter form).
         if not self.valid(case):
             self.stats['outside-domain'] = self.stats.get('outside-domain', 0) + 1
+            return None
+        if op == 'redundant' and case.get('kc') == 'falsy' and self.falsy_key_defect_known():
+            # the region of the known finding C09-redundant-falsy-key (the key is ignored): the model follows the
+            # repaired code; oracle-only until the entry is `fixed`, compared again from then on
             return None
         if op == 'chunked':
             return 'chunkedk %s %s %s %s %s' % (case['kind'], ptok(case, 'size'), ptok(case, 'count'),
@@ -1696,6 +1718,27 @@ class C09(Property):
             if cur != stop:
                 return Failure('cr_cover', 'ranges %r do not cover exactly [%d, %d)' % (r, off, stop))
         return None
+
+    # ------------------------------------------------------------------ known findings
+    def falsy_key_defect_known(self):
+        if not hasattr(self, '_falsy_known'):
+            from bv.common import load_findings
+            self._falsy_known = any(e.get('id') == 'C09-redundant-falsy-key' and e.get('status') == 'known'
+                                    for e in load_findings(self.PID))
+        return self._falsy_known
+
+    def finding_redundant_falsy_key(self, case, failure):
+        """redundant() decides with `if key` (truthiness) whether to apply the key: a callable key object whose
+        truth value is False is silently ignored.  Matched only for redundant() called with such a key, and only
+        while the result is exactly what the identity key gives (any other wrong answer is a new violation)."""
+        if case.get('op') != 'redundant' or case.get('kc') != 'falsy' or failure.tag != 'redundant':
+            return False
+        if not isinstance(case.get('key'), str) or not callable(_key_callable(case['key'])):
+            return False
+        r = self.call(case, False)
+        if 'ok' not in r:
+            return False
+        return self.o_redundant(dict(case, key='id'), r['ok']) is None
 
     def nontrivial(self, case, obs):
         return getattr(self, '_nt', False)
